@@ -1,7 +1,7 @@
 // Package mininode wires the real localstore, netstore, traversal, pinning, chunkinfo
 // and HTTP api of aurorafs together the way pkg/node/node.go does, minus the libp2p host
-// (which does not compile with this toolchain). Peers are connected through the
-// in-memory stream recorder of pkg/p2p/streamtest; retrieval is a stub that does exactly
+// (which does not compile with this toolchain). Peers are connected through an in-memory
+// stream switch (streams.go); retrieval is a stub that does exactly
 // what retrieval.retrieveChunk does after a successful delivery (report the source to
 // chunkinfo, then put the chunk in request mode under the file's root context).
 package mininode
@@ -28,7 +28,6 @@ import (
 	"github.com/gauss-project/aurorafs/pkg/localstore"
 	"github.com/gauss-project/aurorafs/pkg/logging"
 	"github.com/gauss-project/aurorafs/pkg/netstore"
-	"github.com/gauss-project/aurorafs/pkg/p2p/streamtest"
 	"github.com/gauss-project/aurorafs/pkg/pinning"
 	"github.com/gauss-project/aurorafs/pkg/resolver"
 	"github.com/gauss-project/aurorafs/pkg/routetab"
@@ -65,7 +64,7 @@ type Node struct {
 	State  storage.StateStorer
 	API    api.Service
 	Retr   *StubRetrieval
-	Rec    *streamtest.Recorder
+	Rec    *Switch
 	Chain  *StubChain
 	Logger logging.Logger
 	opts   Options
@@ -107,7 +106,7 @@ func New(o Options) (*Node, error) {
 	n.NS = netstore.New(n.Store, n.Retr, logger, o.Addr)
 	n.Trav = traversal.New(n.NS)
 	n.Pin = pinning.NewService(n.Store, n.State, n.Trav)
-	n.Rec = streamtest.New(streamtest.WithBaseAddr(o.Addr))
+	n.Rec = NewSwitch(o.Addr)
 	n.Chain = &StubChain{}
 	n.CI = chunkinfo.New(o.Addr, n.Rec, logger, n.Trav, n.State, n.NS, stubRoute{}, n.Chain, stubResolver{}, subscribe.NewSubPub())
 	if err := n.CI.InitChunkInfo(); err != nil {
@@ -128,8 +127,8 @@ func (n *Node) Close() error {
 // Connect makes each node reachable from the other: chunkinfo streams of a are
 // dispatched to b's handlers and vice versa; a's stub retrieval fetches from b.
 func Connect(a, b *Node) {
-	a.Rec.SetProtocols(b.CI.Protocol())
-	b.Rec.SetProtocols(a.CI.Protocol())
+	a.Rec.AddPeer(b.Addr, b.CI.Protocol())
+	b.Rec.AddPeer(a.Addr, a.CI.Protocol())
 	a.Retr.AddRemote(b)
 	b.Retr.AddRemote(a)
 }
@@ -283,7 +282,9 @@ func (r *StubRetrieval) GetRouteScore(int64) map[string]int64 { return nil }
 
 type stubRoute struct{}
 
-func (stubRoute) GetRoute(context.Context, boson.Address) ([]*routetab.Path, error) { return nil, errors.New("no route") }
+func (stubRoute) GetRoute(context.Context, boson.Address) ([]*routetab.Path, error) {
+	return nil, errors.New("no route")
+}
 func (stubRoute) FindRoute(context.Context, boson.Address, ...time.Duration) ([]*routetab.Path, error) {
 	return nil, errors.New("no route")
 }
@@ -299,8 +300,10 @@ func (stubRoute) FindUnderlay(context.Context, boson.Address, ...time.Duration) 
 
 type stubResolver struct{}
 
-func (stubResolver) Resolve(string) (resolver.Address, error) { return boson.ZeroAddress, errors.New("no resolver") }
-func (stubResolver) Close() error                               { return nil }
+func (stubResolver) Resolve(string) (resolver.Address, error) {
+	return boson.ZeroAddress, errors.New("no resolver")
+}
+func (stubResolver) Close() error { return nil }
 
 // StubChain is the oracle chain: returns harness-controlled source nodes.
 type StubChain struct {
@@ -322,8 +325,8 @@ func (c *StubChain) GetNodesFromCid(cid []byte) []boson.Address {
 	defer c.mu.Unlock()
 	return c.Sources[boson.NewAddress(cid).String()]
 }
-func (c *StubChain) GetSourceNodes(string) []boson.Address                         { return nil }
-func (c *StubChain) OnStoreMatched(boson.Address, uint64, uint64, boson.Address)   {}
+func (c *StubChain) GetSourceNodes(string) []boson.Address                       { return nil }
+func (c *StubChain) OnStoreMatched(boson.Address, uint64, uint64, boson.Address) {}
 func (c *StubChain) DataStoreFinished(boson.Address, uint64, uint64, []byte, chan chain.ChainResult) {
 }
 func (c *StubChain) RegisterCidAndNode(context.Context, boson.Address, boson.Address) (common.Hash, error) {
